@@ -247,6 +247,7 @@ pub const CALLS: &[Call] = &[
     Call::ActionJsonDeserialize(1),
     Call::BodyFilterCreate(0),
     Call::BodyFilterCreate(1),
+    Call::BodyFilterCreate(2),
     Call::TrustedProxiesCreate,
     Call::BufferFromVec(0),
     Call::BufferFromVec(1),
@@ -259,6 +260,7 @@ pub const CALLS: &[Call] = &[
     Call::GetStatusCode,
     Call::HeaderFilterFilter(0),
     Call::HeaderFilterFilter(1),
+    Call::HeaderFilterFilter(2),
     Call::BodyFilterFilter,
     Call::BodyFilterFilterNull,
     Call::ShouldLogRequest,
@@ -443,16 +445,32 @@ impl World {
                 }
             }
             BodyFilterCreate(k) => {
-                let h = if k == 0 { OwnedHeaders::new(&[(Some("Content-Type"), Some("text/html"))]) } else { OwnedHeaders::new(&[(Some("Content-Type"), Some("application/json")), (Some("Content-Encoding"), Some("zstd"))]) };
+                let h = match k {
+                    0 => OwnedHeaders::new(&[(Some("Content-Type"), Some("text/html"))]),
+                    2 => OwnedHeaders::new(&[(Some("Content-Type"), Some("text/html")), (Some("Content-Encoding"), Some("gzip"))]),
+                    _ => OwnedHeaders::new(&[(Some("Content-Type"), Some("application/json")), (Some("Content-Encoding"), Some("zstd"))]),
+                };
                 self.filter = redirectionio_action_body_filter_create(self.action, 200, h.ptr()) as *mut FilterBodyAction;
-                let nh: Vec<Header> = if k == 0 {
-                    vec![Header { name: "Content-Type".into(), value: "text/html".into() }]
-                } else {
-                    vec![Header { name: "Content-Type".into(), value: "application/json".into() }, Header { name: "Content-Encoding".into(), value: "zstd".into() }]
+                let nh: Vec<Header> = match k {
+                    0 => vec![Header { name: "Content-Type".into(), value: "text/html".into() }],
+                    2 => vec![Header { name: "Content-Type".into(), value: "text/html".into() }, Header { name: "Content-Encoding".into(), value: "gzip".into() }],
+                    _ => vec![Header { name: "Content-Type".into(), value: "application/json".into() }, Header { name: "Content-Encoding".into(), value: "zstd".into() }],
                 };
                 self.native_filter = self.native_action.as_mut().and_then(|a| a.create_filter_body(200, &nh));
                 if self.filter.is_null() != self.native_filter.is_none() {
                     self.mismatch("body_filter_create-differs-from-native", format!("ffi null: {}, native none: {}", self.filter.is_null(), self.native_filter.is_none()));
+                }
+                if k == 2 && !self.filter.is_null() {
+                    // the body is declared gzip but is not: the first chunk makes the filter fail, later chunks go through a
+                    // filter that is in its error state (ownership of the input buffer must not change because of that)
+                    let chunk = b"<html><body>this is not gzip</body></html>".to_vec();
+                    let out = redirectionio_action_body_filter_filter(self.filter, Buffer::from_vec(chunk.clone()));
+                    let got = out.to_vec();
+                    redirectionio_api_buffer_drop(out);
+                    let want = self.native_filter.as_mut().map(|f| f.filter(chunk.clone(), None)).unwrap_or(chunk);
+                    if got != want {
+                        self.mismatch("body_filter_filter-differs-from-native", format!("failing first chunk: {:?} vs {:?}", String::from_utf8_lossy(&got), String::from_utf8_lossy(&want)));
+                    }
                 }
             }
             TrustedProxiesCreate => {
@@ -495,6 +513,30 @@ impl World {
                 let want = self.native_action.as_mut().map(|a| a.get_status_code(0, None)).unwrap_or(0);
                 if got != want {
                     self.mismatch("get_status_code-differs-from-native", format!("{got} vs {want}"));
+                }
+            }
+            HeaderFilterFilter(2) => {
+                // a caller-built list with entries the library cannot decode (NULL name, NULL value, ISO-8859-1 bytes) BETWEEN
+                // valid ones: the undecodable entries are skipped, every other header is kept
+                let raw: Vec<(Option<&[u8]>, Option<&[u8]>)> = vec![
+                    (Some(b"X-A"), Some(b"1")),
+                    (Some(b"X-NullValue"), None),
+                    (Some(b"X-B"), Some(b"2")),
+                    (None, Some(b"v")),
+                    (Some(b"X-Latin1"), Some(b"caf\xe9")),
+                    (Some(b"X-C"), Some(b"3")),
+                ];
+                let h = OwnedHeaders::new_raw(&raw);
+                let out = redirectionio_action_header_filter_filter(self.action, h.ptr(), 200, false);
+                let mut got: Vec<(String, String)> = if out == h.ptr() { vec![("<input list returned>".into(), String::new())] } else { take_header_list(out) };
+                let native_in: Vec<Header> = [("X-A", "1"), ("X-B", "2"), ("X-C", "3")].iter().map(|(n, v)| Header { name: n.to_string(), value: v.to_string() }).collect();
+                let mut want: Vec<(String, String)> = self.native_action.as_mut().map(|a| a.filter_headers(native_in, 200, false, None)).unwrap_or_default().into_iter()
+                    // a string with an interior NUL has no C representation: the node is there, with a NULL pointer
+                    .map(|h| (if h.name.contains('\0') { "<NULL>".to_string() } else { h.name }, if h.value.contains('\0') { "<NULL>".to_string() } else { h.value })).collect();
+                got.sort();
+                want.sort();
+                if got != want {
+                    self.mismatch("header_filter_filter-differs-from-native", format!("list with undecodable entries between valid ones: {got:?} vs {want:?}"));
                 }
             }
             HeaderFilterFilter(k) => {
@@ -785,7 +827,7 @@ fn enabled_after(prefix: &[Call]) -> Vec<Call> {
             RequestCreate(_) | RequestFromStr | RequestJsonDeserialize => s.r = true,
             ActionJsonDeserialize(k) => s.a = Some(*k),
             // creation legitimately yields NULL when no filter applies (action without body filters, non-HTML / unsupported encoding)
-            BodyFilterCreate(k) => s.f = *k == 0 && s.a == Some(0),
+            BodyFilterCreate(k) => s.f = (*k == 0 || *k == 2) && s.a == Some(0),
             TrustedProxiesCreate => s.t = true,
             BufferFromVec(_) | BufferFromString(_) => s.b = true,
             RequestDrop => s.r = false,
